@@ -98,11 +98,10 @@ theorem rcOk_mergeRc (k : Kind) (rc base : Xml) (mid : Option PyExc) (h : rcOk r
     (h2 : ∀ y ∈ itemPayload k base, (y.find "itemID").isSome = true)
     (h3 : k = .MetaDataReplace → ∀ s ∈ base.kids, mdOk s) :
     rcOk (mergeRc k rc base mid).kids = true := by
-  obtain ⟨hw, hwi⟩ := wf_of_rcOk h
   by_cases hsl : k.isStoryLevel = true
-  · exact rcOk_of_edit h (storyLevel_edit k rc base mid hsl hw) h1
+  · exact rcOk_of_edit h (storyLevel_edit k rc base mid hsl) h1
   · by_cases hil : k.isItemLevel = true
-    · exact rcOk_of_itemEdit h (itemLevel_edit k rc base mid hil hw hwi) h2
+    · exact rcOk_of_itemEdit h (itemLevel_edit k rc base mid hil) h2
     · cases k <;> first | (simp [Kind.isStoryLevel] at hsl; done) | (simp [Kind.isItemLevel] at hil; done) | skip
       case MetaDataReplace =>
         simp only [mergeRc]
